@@ -73,6 +73,7 @@ def applicable(model, kinds, req):
             if k in ("result", "list:result"):
                 sites.append(("missing-result", i, p, None))
                 sites.append(("missing-result", i, p, "blank-padded"))
+                sites.append(("missing-result", i, p, "long-name"))
                 if any(x["cmd"] in ("PrintVars", "EEMSWrite") for x in cmds if x is not c) and c["cmd"] not in ("PrintVars",):
                     sites.append(("non-data-result", i, p, None))
                 if c["cmd"] in arr.FUZZY_INPUT or (c["cmd"] in arr.INPUT_STYLE and c["cmd"] != "Copy"):
@@ -131,6 +132,9 @@ def inject(model, site, rng):
         # a name nothing is called - or an existing name with a blank / tab / line break before or after it (written in quotes)
         real = [x["result"] for x in cmds if x is not c]
         bad_name = "No_Such_Result"
+        if variant == "long-name" and real:
+            # a very long name that shares a long beginning with an existing (equally long) one would still have to be told apart
+            bad_name = rng.choice(real)[:1] + "_" * 3 + "x" * 190 + rng.choice(["_A", "_B", "9"])
         if variant == "blank-padded" and real:
             bad_name = rng.choice([" %s", "%s ", "%s\t", "\t%s", " %s ", "%s\n"]) % rng.choice(real)
         if isinstance(v, list):
